@@ -32,25 +32,68 @@
    one (C04_spec_files_exist); by C01 these are the files the parser is specified to accept. Every theorem returns such
    a file again, which is what makes the statements chain (C04_history_refines).
 
-   THE ARGUMENTS are specification objects too ([scommand], [step_pre]): the entry given to `track` is a specification
-   entry; summary lines are specification summary lines; none ends in a carriage return (inserted before a bare LF it
-   would be read back as part of a CRLF ending: finding K2); valid dates and times; should-totals within int64.
-   Three requirements concern the file: no open-range line ends in a blank directly after the placeholder (such a
-   line reads back like one without the blank, but text appended by `stop` would then start with it - no model on the
-   parsed data can tell the two apart); the summaries `--resume` may pick up are free of trailing carriage returns
-   ([summaries_ok]); the open range's tags as `pause` prints them are well-formed text ([tags_ok]).
+   THE ARGUMENTS are specification objects too ([scommand], [step_pre]). What [step_pre] asks, command by command:
+     track    the entry is a well-formed specification entry ([wf_entry]); no line of it ends in a carriage return
+     start    --summary text made of specification summary lines ([sum_arg_ok])
+     stop     the summary to append is well-formed text without trailing carriage return ([add_ok])
+     switch   as start
+     create   specification summary lines without trailing carriage return
+     pause    summary lines that are well-formed text, the further ones not blank, none ending in a carriage return
+   A carriage return at the end of an inserted line, before a bare LF, would be read back as part of a CRLF ending
+   (finding K2).  For every command: a valid date of the clock and of an explicit date argument ([datesel_ok]; a date
+   that comes out of [parse_date] is valid: C04_parse_date_valid), a valid explicit time ([time_arg_ok]; one that comes
+   out of [parse_time] is valid: C04_parse_time_valid; the dates and times the commands compute from these are then
+   valid: C04_at_date_valid, C04_at_time_valid), a configured should-total within int64 (one that comes out of
+   [parse_duration] is: C04_parse_duration_should_fits).
+   Two requirements concern the file, and each is needed:
+     [open_entry_ok] (stop, switch) no open-range line ends in a blank directly after the placeholder: such a line reads
+       back like one without the blank, but text appended by `stop` would start with it - no model on the parsed data
+       can tell the two apart (C04_same_records_different_effect_refuted);
+     [file_no_cr] (start, switch) no summary line of an entry ends in a carriage return (`--resume` copies it before a
+       bare LF; K2 again).
+   No longer asked (proved instead): that the tags `pause` copies are well-formed text (C04_tags_ok, for every
+   conforming file), that computed dates / times are valid, that the resolved `--resume` summary is well-formed.
 
-   PARTIAL in this sense: proved is `the model accepts -> the command succeeds and re-reading the file yields exactly
-   the model's records' for all six commands and for histories (C04_exec_refines_partial, C04_history_refines_partial),
-   and `the model rejects -> the command fails with the same error and the file is unchanged' for start, stop and
-   switch (C04_exec_rejects_partial: second open range, nothing to stop, end before start, no record, unknown entry to
-   resume, impossible time). Not proved: the rejecting direction for track (a second open range is caught by the
-   safeguard re-parse, which needs the rejection half of C01 at line level) and pause; and the extension from
-   specification-conforming files to all files the parser accepts (again the rejection half of C01). *)
+   WHAT IS PROVED.  For all six commands and for histories, on conforming files and with arguments as above: whatever
+   the model says - success, or a rejection with its error - the command reports the same and leaves a conforming file
+   whose records are exactly the model's (C04_exec_total_partial, C04_history_total_partial; the older
+   C04_exec_refines_partial / C04_history_refines_partial / C04_exec_rejects_partial are its accepting and rejecting
+   halves).  A rejected track / start / stop / switch leaves the file as it was; a `pause` rejected at its first step
+   too (C04_pause_rejects), one rejected at a later clock reading leaves what the earlier readings wrote (C04_pause_full).
+   The rejections, as the model has them:
+     track    a second open range in the record (C04_track_rejects_second_open)
+     start    a second open range; an entry to resume that does not exist; an impossible time
+     stop     no record; no open range; an end before the start; an impossible time
+     switch   as stop and start
+     create   none
+     pause    --extend with --summary (C04_pause_flags_rejects: for every file); no record of today or yesterday
+              (C04_pause_no_record_rejects); no open range in it (C04_pause_no_open_rejects); --extend without a pause
+              entry (C04_pause_extend_no_pause_rejects)
+   Beyond the model, `track` is given a TEXT, which need not be an entry of the grammar: any first line that
+   [parse_entry_value] refuses at every indentation ([malformed_value]) is rejected with "invalid result" and the file
+   left unchanged (C04_track_rejects_malformed), in particular the fault families of C01: a time out of range, a
+   missing dash, a bad end, a bad placeholder, a minutes part of 60 or more, a reversed range (the C04_malformed_ theorems).
+
+   WHAT IS NOT PROVED (hence _partial):
+   - rejections of `track` for a text whose first line starts with a blank or a non-ASCII character (finding K15: such a
+     text is not rejected at all but silently becomes a summary line), or whose further lines are blank;
+     and nothing is said of texts the parser accepts but the grammar does not generate (a tab after the value);
+   - the outcomes the model marks as a crash: an int64 overflow when a pause duration is extended, a date shifted
+     beyond the calendar (`--tomorrow` on 9999-12-31);
+   - files that the parser accepts but that are not conforming.  What separates the two classes is layout only:
+     C04_accepted_records_wf shows that the records of EVERY accepted file satisfy the specification's record rules
+     (valid date, should-total and durations in range, times valid, ranges in order, at most one open range, summary
+     lines proper text not starting with a blank, further entry lines not blank), and C04_accepted_equivalent that its
+     canonical print is a conforming file with the same records (up to a should-total of 0, printed as absent; and
+     provided no summary line ends in a carriage return, which print would turn into part of a CRLF ending).  Accepted
+     but outside the grammar's image are texts the specification does not mention (Spec/Spec.v header), such as a tab
+     after an entry value or blanks inside the should-total parentheses.  The commands' effect on such files is covered
+     by the differential tests of C04, not by these theorems. *)
 From Klog Require Import Base.Prelude Base.Utf8 Model.Calendar Model.Values Model.Record Model.Lines Model.Parser
   Model.Reconcile Model.Commands Proofs.Values Spec.Spec Proofs.SpecEntry Proofs.SpecRecord Proofs.SpecDoc
   Proofs.Reconcile Proofs.Commands Proofs.Rounding Proofs.CommandsSpec Proofs.CommandsRefine Proofs.CommandsStop
-  Proofs.CommandsPause Proofs.CommandsHistory Proofs.CommandsReject.
+  Proofs.CommandsPause Proofs.CommandsArgs Proofs.CommandsHistory Proofs.CommandsReject Proofs.CommandsTrackReject
+  Proofs.CommandsPauseReject Proofs.CommandsTags Proofs.CommandsAccepted Proofs.CommandsTotal Spec.SpecInject Model.Serialiser Proofs.Print.
 Open Scope Z_scope.
 
 (* the files: every rendered well-formed specification document whose last line is terminated or does not end in CR *)
@@ -87,13 +130,33 @@ Theorem C04_history_refines_partial : forall cfg h file recs rs',
 Proof. exact history_refines. Qed.
 Print Assumptions C04_history_refines_partial.
 
-(* ---------- a command the model rejects fails, with the model's error, and changes nothing (start, stop, switch) ---------- *)
+(* ---------- a command the model rejects fails, with the model's error, and changes nothing (all but pause, which
+   writes several times: C04_pause_rejects, C04_pause_full) ---------- *)
 Theorem C04_exec_rejects_partial : forall now cfg sc file recs e, rejecting sc = true ->
   spec_state file recs -> step_pre now cfg sc recs ->
   a_exec now cfg sc (denote_recs recs) = CErr e ->
   exec now cfg (to_command sc) file = (file, CErr e).
 Proof. exact exec_rejects. Qed.
 Print Assumptions C04_exec_rejects_partial.
+
+(* ---------- both directions at once: whatever the model says, the command says, and the file holds the model's records ---------- *)
+Theorem C04_exec_total_partial : forall now cfg sc file recs rs' res,
+  spec_state file recs -> step_pre now cfg sc recs ->
+  a_exec_full now cfg sc (denote_recs recs) = (rs', res) -> res <> CCrash ->
+  exists file' recs',
+    exec now cfg (to_command sc) file = (file', res) /\
+    spec_state file' recs' /\ denote_recs recs' = rs' /\
+    (forall e, res = CErr e -> rejecting sc = true -> file' = file).
+Proof. exact exec_total. Qed.
+Print Assumptions C04_exec_total_partial.
+
+(* ... over histories in which any step may be rejected *)
+Theorem C04_history_total_partial : forall cfg h file recs rs' results,
+  spec_state file recs -> history_full_pre cfg h file ->
+  a_history_full cfg h (denote_recs recs) = (rs', results) -> ~ In CCrash results ->
+  exists file' recs', exec_history_full cfg h file = (file', results) /\ spec_state file' recs' /\ denote_recs recs' = rs'.
+Proof. exact history_total. Qed.
+Print Assumptions C04_history_total_partial.
 
 (* ---------- the commands one by one ---------- *)
 
@@ -151,7 +214,7 @@ Print Assumptions C04_stop_refines.
 Theorem C04_switch_refines : forall now cfg a s file recs d t rs',
   spec_state file recs -> at_date now (a_date a) = Ok d -> at_time now cfg a = COk t -> valid_time t ->
   (forall rg, In rg recs -> open_entry_ok (fst rg)) ->
-  (forall current summary, resolve_summary s current None = COk summary -> summary_ok summary) ->
+  summaries_ok s (denote_recs recs) ->
   a_switch d t (time_format cfg a) s (denote_recs recs) = COk rs' ->
   exists file' recs',
     exec_simple now cfg (Switch a s) file = COk file' /\
@@ -167,14 +230,189 @@ Theorem C04_pause_refines : forall now cfg summary sr no_tags extend ticks file 
   spec_state file recs -> plus_days (now_date now) (-1) = Ok y ->
   match summary with Some s => s | None => [] end = map utf8_encode sr ->
   match sr with [] => True | s0r :: mr => text_ok s0r = true /\ forallb (fun t => text_ok t && negb (all_blank t)) mr = true end ->
-  no_cr_lines (map utf8_encode sr) -> tags_ok recs ->
+  no_cr_lines (map utf8_encode sr) ->
   a_pause (now_date now) y summary no_tags extend ticks (denote_recs recs) = COk rs' ->
   exists file' recs',
     exec now cfg (Pause summary no_tags extend ticks) file = (file', COk tt) /\
     spec_state file' recs' /\ denote_recs recs' = rs' /\
     exists bs', parse_text file' = Ok (Parsed (denote_recs recs') bs').
-Proof. exact pause_refines. Qed.
+Proof. exact pause_refines_conforming. Qed.
 Print Assumptions C04_pause_refines.
+
+(* pause, success or rejection: the report is the model's, the file holds the model's records *)
+Theorem C04_pause_full : forall now cfg summary sr no_tags extend ticks file recs y rs' res,
+  spec_state file recs -> plus_days (now_date now) (-1) = Ok y ->
+  match summary with Some s => s | None => [] end = map utf8_encode sr ->
+  match sr with [] => True | s0r :: mr => text_ok s0r = true /\ forallb (fun t => text_ok t && negb (all_blank t)) mr = true end ->
+  no_cr_lines (map utf8_encode sr) ->
+  a_pause_full (now_date now) y summary no_tags extend ticks (denote_recs recs) = (rs', res) -> res <> CCrash ->
+  exists file' recs',
+    exec now cfg (Pause summary no_tags extend ticks) file = (file', res) /\
+    spec_state file' recs' /\ denote_recs recs' = rs'.
+Proof. exact pause_full_conforming. Qed.
+Print Assumptions C04_pause_full.
+
+(* ---------- the rejections of pause: the model's error, the file untouched (no requirement on the arguments) ---------- *)
+Theorem C04_pause_rejects : forall now cfg summary no_tags extend ticks file recs y e,
+  spec_state file recs -> plus_days (now_date now) (-1) = Ok y ->
+  a_pause_init (now_date now) y summary no_tags extend (denote_recs recs) = CErr e ->
+  exec now cfg (Pause summary no_tags extend ticks) file = (file, CErr e).
+Proof. exact pause_init_rejects. Qed.
+Print Assumptions C04_pause_rejects.
+
+(* --extend together with --summary: for every file whatsoever *)
+Theorem C04_pause_flags_rejects : forall now cfg s no_tags ticks file,
+  exec now cfg (Pause (Some s) no_tags true ticks) file = (file, CErr CEFlags).
+Proof. exact pause_flags_rejects. Qed.
+Print Assumptions C04_pause_flags_rejects.
+
+(* no record dated today or yesterday *)
+Theorem C04_pause_no_record_rejects : forall now cfg summary no_tags extend ticks file recs y,
+  spec_state file recs -> plus_days (now_date now) (-1) = Ok y ->
+  extend && (match summary with Some _ => true | None => false end) = false ->
+  pause_target (now_date now) y (denote_recs recs) = None ->
+  exec now cfg (Pause summary no_tags extend ticks) file = (file, CErr CENoSuchRecord).
+Proof. exact pause_no_record_rejects. Qed.
+Print Assumptions C04_pause_no_record_rejects.
+
+(* the record (the first of today, else the first of yesterday) has no open range *)
+Theorem C04_pause_no_open_rejects : forall now cfg summary no_tags extend ticks file recs y i r,
+  spec_state file recs -> plus_days (now_date now) (-1) = Ok y ->
+  extend && (match summary with Some _ => true | None => false end) = false ->
+  pause_target (now_date now) y (denote_recs recs) = Some i -> nth_error (denote_recs recs) i = Some r ->
+  existsb is_open (rec_entries r) = false ->
+  exec now cfg (Pause summary no_tags extend ticks) file = (file, CErr CEManipulation).
+Proof. exact pause_no_open_rejects. Qed.
+Print Assumptions C04_pause_no_open_rejects.
+
+(* --extend on a record without a pause entry *)
+Theorem C04_pause_extend_no_pause_rejects : forall now cfg no_tags ticks file recs y i r,
+  spec_state file recs -> plus_days (now_date now) (-1) = Ok y ->
+  pause_target (now_date now) y (denote_recs recs) = Some i -> nth_error (denote_recs recs) i = Some r ->
+  existsb is_pause (rec_entries r) = false ->
+  exec now cfg (Pause None no_tags true ticks) file = (file, CErr CEManipulation).
+Proof. exact pause_extend_no_pause_rejects. Qed.
+Print Assumptions C04_pause_extend_no_pause_rejects.
+
+(* ---------- the rejections of track. The text given to `track` is the first line x and the further lines mr
+   ([raw_entry_arg]); [raw_entry_ok]: well-formed text, x starting with a non-blank ASCII character, the further lines
+   not blank, no trailing carriage return. [entries_before]: the entries of the record the line would be added to.
+   [entry_rejected_after acc x mr]: at every indentation, the parser refuses the lines after the entries acc. ---------- *)
+Theorem C04_track_rejects : forall now cfg ds file recs d x mr,
+  spec_state file recs -> at_date now ds = Ok d -> valid_cdate (dt d) = true -> should_fits (cfg_should cfg) ->
+  raw_entry_ok x mr ->
+  entry_rejected_after (entries_before (dt d) (denote_recs recs)) x mr ->
+  exec now cfg (Track ds (raw_entry_arg x mr)) file = (file, CErr CEInvalidResult).
+Proof. exact track_rejects. Qed.
+Print Assumptions C04_track_rejects.
+
+(* a first line that is no entry of the grammar *)
+Theorem C04_track_rejects_malformed : forall now cfg ds file recs d x mr,
+  spec_state file recs -> at_date now ds = Ok d -> valid_cdate (dt d) = true -> should_fits (cfg_should cfg) ->
+  raw_entry_ok x mr -> malformed_value x ->
+  exec now cfg (Track ds (raw_entry_arg x mr)) file = (file, CErr CEInvalidResult).
+Proof. exact track_malformed_rejects. Qed.
+Print Assumptions C04_track_rejects_malformed.
+
+(* a second open range: as a specification entry ... *)
+Theorem C04_track_rejects_second_open : forall now cfg ds file recs d se,
+  spec_state file recs -> at_date now ds = Ok d -> valid_cdate (dt d) = true -> should_fits (cfg_should cfg) ->
+  wf_entry se = true -> no_cr_lines (entry_arg se) ->
+  is_open (denote_entry se) = true -> existsb is_open (entries_before (dt d) (denote_recs recs)) = true ->
+  exec now cfg (Track ds (entry_arg se)) file = (file, CErr CEInvalidResult).
+Proof. exact track_second_open_rejects. Qed.
+Print Assumptions C04_track_rejects_second_open.
+
+(* ... and as a text: an open range followed by anything *)
+Theorem C04_second_open_rejected : forall acc a sp1 sp2 extra tail mr, wf_time a = true -> tail_ok tail -> text_ok tail = true ->
+  has_open_entry acc = true -> forallb (fun t => text_ok t && negb (all_blank t)) mr = true ->
+  entry_rejected_after acc (render_value (SOpen a sp1 sp2 extra) ++ tail) mr.
+Proof. exact second_open_rejected. Qed.
+Print Assumptions C04_second_open_rejected.
+
+(* the fault families of C01 are malformed values *)
+Theorem C04_malformed_bad_time : forall st rest, time_fields_in_shape st = true -> wf_time st = false ->
+  match rest with c :: _ => is_dash_or_space c = true | [] => True end -> malformed_value (render_time st ++ rest).
+Proof. exact malformed_bad_time. Qed.
+Print Assumptions C04_malformed_bad_time.
+
+Theorem C04_malformed_missing_dash : forall a sp1 rest, wf_time a = true ->
+  match rest with c :: _ => is_space c = false /\ (c =? ch_minus)%N = false | [] => True end -> (sp1 = 0%nat -> rest = []) ->
+  malformed_value (render_time a ++ spaces sp1 ++ rest).
+Proof. exact malformed_missing_dash. Qed.
+Print Assumptions C04_malformed_missing_dash.
+
+Theorem C04_malformed_bad_end : forall a sp1 sp2 s' tail, wf_time a = true ->
+  forallb (fun c => negb (is_space_or_tab c)) s' = true ->
+  match tail with c :: _ => is_space_or_tab c = true | [] => True end ->
+  match s' ++ tail with c :: _ => is_space c = false /\ (c =? ch_q)%N = false | [] => True end ->
+  (forall t, parse_time (utf8_encode s') <> Ok t) ->
+  malformed_value (render_time a ++ spaces sp1 ++ [45%N] ++ spaces sp2 ++ s' ++ tail).
+Proof. exact malformed_bad_end. Qed.
+Print Assumptions C04_malformed_bad_end.
+
+Theorem C04_malformed_bad_placeholder : forall a sp1 sp2 rep tail, wf_time a = true ->
+  forallb (fun c => negb (is_space_or_tab c)) rep = true ->
+  match tail with c :: _ => is_space_or_tab c = true | [] => True end ->
+  forallb (fun c => (c =? ch_q)%N) rep = false ->
+  malformed_value (render_time a ++ spaces sp1 ++ [45%N] ++ spaces sp2 ++ 63%N :: rep ++ tail).
+Proof. exact malformed_bad_placeholder. Qed.
+Print Assumptions C04_malformed_bad_placeholder.
+
+Theorem C04_malformed_minutes_overflow : forall du tail, dur_minutes_overflow du = true -> tail_ok tail ->
+  malformed_value (render_dur du ++ tail).
+Proof. exact malformed_minutes_overflow. Qed.
+Print Assumptions C04_malformed_minutes_overflow.
+
+Theorem C04_malformed_reversed_range : forall a sp1 sp2 b tail, wf_time a = true -> wf_time b = true ->
+  timeline b < timeline a -> tail_ok tail -> malformed_value (render_value (SRange a sp1 sp2 b) ++ tail).
+Proof. exact malformed_reversed_range. Qed.
+Print Assumptions C04_malformed_reversed_range.
+
+(* ---------- requirements that are proved rather than asked ---------- *)
+
+(* the tags `pause` copies from an open range are well-formed text, in every conforming file *)
+Theorem C04_tags_ok : forall file recs, spec_state file recs -> tags_ok recs.
+Proof. exact spec_state_tags_ok. Qed.
+Print Assumptions C04_tags_ok.
+
+(* dates and times: what the CLI parses is valid, and what the commands compute from valid arguments is valid *)
+Theorem C04_parse_time_valid : forall s t, parse_time s = Ok t -> valid_time t.
+Proof. exact CommandsArgs.parse_time_valid. Qed.
+Print Assumptions C04_parse_time_valid.
+
+Theorem C04_parse_date_valid : forall s d, parse_date s = Ok d -> valid_cdate (dt d) = true.
+Proof. exact parse_date_valid. Qed.
+Print Assumptions C04_parse_date_valid.
+
+Theorem C04_at_time_valid : forall now cfg a t, time_arg_ok a -> at_time now cfg a = COk t -> valid_time t.
+Proof. exact at_time_valid. Qed.
+Print Assumptions C04_at_time_valid.
+
+Theorem C04_at_date_valid : forall now ds d, datesel_ok now ds -> at_date now ds = Ok d -> valid_cdate (dt d) = true.
+Proof. exact at_date_valid. Qed.
+Print Assumptions C04_at_date_valid.
+
+(* a should-total the CLI parses lies within int64 *)
+Theorem C04_parse_duration_should_fits : forall s d, parse_duration s = Ok d -> should_fits (Some (d_mins d)).
+Proof. exact parse_duration_should_fits. Qed.
+Print Assumptions C04_parse_duration_should_fits.
+
+(* ---------- accepted files and conforming files ---------- *)
+
+(* the records of every file the parser accepts satisfy the specification's rules for records *)
+Theorem C04_accepted_records_wf : forall f rs bs, parse_text f = Ok (Parsed rs bs) -> wf_records rs.
+Proof. exact parsed_records_wf_records. Qed.
+Print Assumptions C04_accepted_records_wf.
+
+(* every accepted file is equivalent to a conforming one: its canonical print conforms and has the same records
+   (up to [normalise]: a should-total of 0 is printed as absent) *)
+Theorem C04_accepted_equivalent : forall f rs bs, parse_text f = Ok (Parsed rs bs) -> no_trailing_cr rs = true ->
+  spec_state (print_records rs) (canon_records rs) /\
+  denote_recs (canon_records rs) = normalise rs /\
+  exists bs', parse_text (print_records rs) = Ok (Parsed (normalise rs) bs').
+Proof. exact accepted_equivalent. Qed.
+Print Assumptions C04_accepted_equivalent.
 
 (* a record inserted by the model sits where [insert_record] says, and changing it there is changing the insertion *)
 Theorem C04_insert_record_place : forall x rs, nth_error (insert_record x rs) (insert_index (dt (rec_date x)) rs) = Some x.
@@ -281,8 +519,8 @@ Example ex_step_pre : step_pre (ex_clock 1 12 0) ex_cfg (SStop ex_args (Some [b!
 Proof.
   split; [|eexists; vm_compute; reflexivity].
   cbn [step_pre]. split; [|split; [|split]].
-  - intros d H. vm_compute in H. injection H as <-. reflexivity.
-  - intros t H. vm_compute in H. injection H as <-. unfold valid_time. cbn. lia.
+  - split; [reflexivity|exact I].
+  - intros t H. discriminate H.
   - split; [split; reflexivity|reflexivity].
   - intros rg [<-|[]] se Hin Ho. cbn in Hin. destruct Hin as [<-|[<-|[]]]; [discriminate Ho|]. intros E. discriminate E.
 Qed.
@@ -297,9 +535,9 @@ Example ex_history2_pre : history_pre ex_cfg ex_history2 (render ex_doc).
 Proof.
   assert (Hsh : should_fits (cfg_should ex_cfg)) by (unfold should_fits, ex_cfg, max_int64; cbn [cfg_should]; lia).
   unfold ex_history2. cbn [history_pre]. split; [|split; [|split; [|exact I]]]; intros recs _; cbn [step_pre].
-  - split; [intros d H; vm_compute in H; injection H as <-; reflexivity|]. split; [exact Hsh|]. split; reflexivity.
-  - split; [intros d H; vm_compute in H; injection H as <-; reflexivity|]. split; [unfold should_fits, max_int64; lia|]. split; reflexivity.
-  - split; [intros d H; vm_compute in H; injection H as <-; reflexivity|]. split; [exact Hsh|]. split; reflexivity.
+  - split; [split; [reflexivity|exact I]|]. split; [exact Hsh|]. split; reflexivity.
+  - split; [split; [reflexivity|exact I]|]. split; [unfold should_fits, max_int64; lia|]. split; reflexivity.
+  - split; [split; [reflexivity|exact I]|]. split; [exact Hsh|]. split; reflexivity.
 Qed.
 
 Example ex_history2_model : exists rs', a_exec_history ex_cfg ex_history2 (denote_recs (do_records ex_doc)) = COk rs' /\ length rs' = 3%nat.
@@ -310,3 +548,121 @@ Example ex_start_rejected :
   a_exec (ex_clock 1 9 0) ex_cfg (SStart ex_args {| s_text := None; s_resume := false; s_nth := 0 |}) (denote_recs (do_records ex_doc)) = CErr CEManipulation
   /\ exec (ex_clock 1 9 0) ex_cfg (Start ex_args {| s_text := None; s_resume := false; s_nth := 0 |}) (render ex_doc) = (render ex_doc, CErr CEManipulation).
 Proof. split; [vm_compute; reflexivity|]. vm_cast_no_check (@eq_refl (bytes * cresult unit) (render ex_doc, CErr CEManipulation)). Qed.
+
+(* ---------- non-vacuity of the rejecting statements ---------- *)
+
+(* track: a second open range on the example file (hypotheses of C04_track_rejects_second_open, and the real run) *)
+Definition ex_open2 : s_entry := {| se_value := SOpen (ex_t 9 0) 1 1 0; se_first := Some b!"more work"; se_more := [] |}.
+
+Example ex_track_second_open_pre :
+  wf_entry ex_open2 = true /\ no_cr_lines (entry_arg ex_open2) /\ is_open (denote_entry ex_open2) = true /\
+  existsb is_open (entries_before (now_date (ex_clock 1 9 0)) (denote_recs (do_records ex_doc))) = true /\
+  entry_arg ex_open2 = [b!"9:00 - ? more work"].
+Proof. repeat split; vm_compute; reflexivity. Qed.
+
+Example ex_track_second_open_run :
+  exec (ex_clock 1 9 0) ex_cfg (Track DDefault [b!"9:00 - ? more work"]) (render ex_doc) = (render ex_doc, CErr CEInvalidResult).
+Proof. vm_cast_no_check (@eq_refl (bytes * cresult unit) (render ex_doc, CErr CEInvalidResult)). Qed.
+
+(* track: `25:00 - 26:00` is a malformed value (C04_malformed_bad_time), a text `track` can be given, and rejected *)
+Example ex_malformed : malformed_value b!"25:00 - 26:00 x" /\ raw_entry_ok b!"25:00 - 26:00 x" [b!"second line"].
+Proof.
+  split.
+  - exact (C04_malformed_bad_time {| st_shift := 0; st_hh := 25; st_pad := false; st_mm := 0; st_clock := C24 |} b!" - 26:00 x"
+             eq_refl eq_refl eq_refl).
+  - repeat split; vm_compute; reflexivity.
+Qed.
+
+Example ex_track_malformed_run :
+  exec (ex_clock 1 9 0) ex_cfg (Track DDefault (raw_entry_arg b!"25:00 - 26:00 x" [b!"second line"])) (render ex_doc)
+  = (render ex_doc, CErr CEInvalidResult).
+Proof. vm_cast_no_check (@eq_refl (bytes * cresult unit) (render ex_doc, CErr CEInvalidResult)). Qed.
+
+(* the other families have members too *)
+Example ex_malformed_families :
+  malformed_value b!"8:00 9:00" /\ malformed_value b!"8:00 - 9:60" /\ malformed_value b!"8:00 - ?x" /\
+  malformed_value b!"1h60m" /\ malformed_value b!"9:00 - 8:00".
+Proof.
+  split; [|split; [|split; [|split]]].
+  - exact (C04_malformed_missing_dash (ex_t 8 0) 1 b!"9:00" eq_refl (conj eq_refl eq_refl) (fun H => ltac:(discriminate H))).
+  - apply (C04_malformed_bad_end (ex_t 8 0) 1 1 b!"9:60" [] eq_refl eq_refl I (conj eq_refl eq_refl)).
+    intros t H. vm_compute in H. discriminate H.
+  - exact (C04_malformed_bad_placeholder (ex_t 8 0) 1 1 b!"x" [] eq_refl eq_refl I eq_refl).
+  - exact (C04_malformed_minutes_overflow {| du_sign := SNone; du_h := Some b!"1"; du_m := Some b!"60" |} [] eq_refl I).
+  - apply (C04_malformed_reversed_range (ex_t 9 0) 1 1 (ex_t 8 0) [] eq_refl eq_refl); [vm_compute; reflexivity|exact I].
+Qed.
+
+(* pause: no record of today or yesterday; a record without open range; --extend without a pause entry *)
+Definition ex_doc_closed : s_doc :=
+  {| do_lead := [];
+     do_records :=
+       [ ({| sr_date := {| sd_year := 2020; sd_month := 1; sd_day := 1; sd_dash := true |};
+             sr_should := None; sr_trail := []; sr_summary := []; sr_indent := I2;
+             sr_entries := [ {| se_value := SDur {| du_sign := SNone; du_h := Some b!"1"; du_m := None |}; se_first := Some b!"read"; se_more := [] |} ] |}, []) ];
+     do_crlf := fun _ => false;
+     do_final_newline := true |}.
+
+Example ex_closed_is_conforming : spec_state (render ex_doc_closed) (do_records ex_doc_closed).
+Proof.
+  apply C04_spec_files_exist; [vm_compute; reflexivity|].
+  apply last_line_safe_terminated. intros pre l E. vm_compute in E.
+  repeat (destruct pre as [|? pre]; [injection E as <-; discriminate|injection E as _ E]). destruct pre; discriminate E.
+Qed.
+
+Example ex_pause_no_record :
+  pause_target (now_date (ex_clock 5 9 0)) {| c_year := 2020; c_month := 1; c_day := 4 |} (denote_recs (do_records ex_doc)) = None /\
+  exec (ex_clock 5 9 0) ex_cfg (Pause None false false [60]) (render ex_doc) = (render ex_doc, CErr CENoSuchRecord).
+Proof. split; [vm_compute; reflexivity|]. vm_cast_no_check (@eq_refl (bytes * cresult unit) (render ex_doc, CErr CENoSuchRecord)). Qed.
+
+Example ex_pause_no_open :
+  (exists r, pause_target (now_date (ex_clock 1 9 0)) {| c_year := 2019; c_month := 12; c_day := 31 |} (denote_recs (do_records ex_doc_closed)) = Some 0%nat /\
+             nth_error (denote_recs (do_records ex_doc_closed)) 0 = Some r /\ existsb is_open (rec_entries r) = false) /\
+  exec (ex_clock 1 9 0) ex_cfg (Pause None false false [60]) (render ex_doc_closed) = (render ex_doc_closed, CErr CEManipulation).
+Proof.
+  split; [eexists; repeat split; vm_compute; reflexivity|].
+  vm_cast_no_check (@eq_refl (bytes * cresult unit) (render ex_doc_closed, CErr CEManipulation)).
+Qed.
+
+Example ex_pause_extend_no_pause :
+  (exists r, nth_error (denote_recs (do_records ex_doc)) 0 = Some r /\ existsb is_pause (rec_entries r) = false) /\
+  exec (ex_clock 1 9 0) ex_cfg (Pause None false true [60]) (render ex_doc) = (render ex_doc, CErr CEManipulation).
+Proof.
+  split; [eexists; split; vm_compute; reflexivity|].
+  vm_cast_no_check (@eq_refl (bytes * cresult unit) (render ex_doc, CErr CEManipulation)).
+Qed.
+
+Example ex_pause_flags :
+  exec (ex_clock 1 9 0) ex_cfg (Pause (Some [b!"x"]) false true [60]) (render ex_doc) = (render ex_doc, CErr CEFlags).
+Proof. exact (C04_pause_flags_rejects _ _ _ _ _ _). Qed.
+
+(* a history with a rejected step: the hypotheses of C04_history_total_partial, the model's verdict, the real run *)
+Definition ex_history3 : history :=
+  [ (ex_clock 1 9 0, STrack DDefault ex_open2);                                           (* rejected: second open range *)
+    (ex_clock 1 9 5, SCreate DTomorrow (Some 0) [b!"Public holiday"]);
+    (ex_clock 1 9 9, STrack DYesterday {| se_value := SRange (ex_t 13 0) 0 0 (ex_t 14 30); se_first := None; se_more := [] |}) ].
+
+Example ex_history3_pre : history_full_pre ex_cfg ex_history3 (render ex_doc).
+Proof.
+  assert (Hsh : should_fits (cfg_should ex_cfg)) by (unfold should_fits, ex_cfg, max_int64; cbn [cfg_should]; lia).
+  unfold ex_history3. cbn [history_full_pre]. split; [|split; [|split; [|exact I]]]; intros recs _; cbn [step_pre].
+  - split; [split; [reflexivity|exact I]|]. split; [exact Hsh|]. split; reflexivity.
+  - split; [split; [reflexivity|exact I]|]. split; [unfold should_fits, max_int64; lia|]. split; reflexivity.
+  - split; [split; [reflexivity|exact I]|]. split; [exact Hsh|]. split; reflexivity.
+Qed.
+
+Example ex_history3_model :
+  snd (a_history_full ex_cfg ex_history3 (denote_recs (do_records ex_doc))) = [CErr CEInvalidResult; COk tt; COk tt] /\
+  length (fst (a_history_full ex_cfg ex_history3 (denote_recs (do_records ex_doc)))) = 3%nat.
+Proof. split; vm_compute; reflexivity. Qed.
+
+Example ex_history3_run : snd (exec_history_full ex_cfg ex_history3 (render ex_doc)) = [CErr CEInvalidResult; COk tt; COk tt].
+Proof. vm_cast_no_check (@eq_refl (list (cresult unit)) [CErr CEInvalidResult; COk tt; COk tt]). Qed.
+
+(* an accepted file that is no rendering of a specification document (a tab after the value), and its conforming equivalent *)
+Example ex_accepted :
+  exists rs bs, parse_text (b!"2020-01-01
+  1h" ++ [9%N] ++ b!"read
+") = Ok (Parsed rs bs) /\ no_trailing_cr rs = true /\ print_records rs = b!"2020-01-01
+    1h read
+".
+Proof. eexists. eexists. split; [vm_compute; reflexivity|]. split; vm_compute; reflexivity. Qed.
